@@ -16,6 +16,17 @@ CLAIMED = {
          "(differential testing, exhaustive over comparator patterns up to length 4 quick / 5 thorough); the scheme's "
          "operators being lawful is property C02's business and is assumed here."),
    design="§7 C04", technique="Lean 4 proof (induction over the bound list) + model/implementation correspondence"),
+ "C07": dict(
+   level="proof",
+   text=("Lean 4 theorems over a model of VersionConstraint.validate / validate_comparators: for EVERY finite list of "
+         "constraints (any order, duplicates, stars) over a scheme with lawful operators, the model returns True exactly "
+         "when the list is well-formed (WF: every version once, star alone, '=' rule, alternation rule read in version order) "
+         "and raises ValueError otherwise; every accepted list can be tested for membership without error (via C04). "
+         "Tied to /repo by a bounded-exhaustive correspondence on real versions of every hashable scheme."),
+   note=("Trusted: Lean kernel; standard axioms; the spec WF; the correspondence (exhaustive over comparator patterns up to "
+         "length 4 quick / 5 thorough, with duplicates and stars); set() membership modelled by == (hash agreement is C12); "
+         "type checks of the arguments are vacuous in the typed model."),
+   design="§7 C07", technique="Lean 4 proof (sorted-permutation uniqueness, rule equivalence) + correspondence"),
 }
 
 NOT_YET = "machinery for this property is not built yet at this commit (planned: Lean 4 proof + correspondence, see DESIGN.md §7)"
